@@ -192,6 +192,11 @@ func ScanSnapshot(in io.Reader, prefix io.Writer, opts *Opts) (*Snapshot, []byte
 			}
 		}
 	}
+	if s.state == done && suffix == nil {
+		// The line that completed the trace was consumed. Hand back what was
+		// already read past it so the caller can resume from there.
+		suffix = append([]byte{}, r.buffered()...)
+	}
 	if s.Goroutines != nil {
 		if opts.NameArguments {
 			nameArguments(s.Goroutines)
